@@ -88,6 +88,10 @@ class Check:
         """Report one violating case. `key` identifies the root-cause family narrowly
         (it is what known_findings.jsonl is matched against)."""
         i = self._match_known(key)
+        if os.environ.get('VERIF_DUMP_CASES'):      # triage aid: every case with its key, one per line
+            with open(os.environ['VERIF_DUMP_CASES'], 'a') as f:
+                src = (files or {}).get('input.c', b'')
+                f.write('%s\t%s\t%s\n' % (key, what.replace('\n', ' ')[:300], (src.decode('latin-1') if isinstance(src, bytes) else str(src)).replace('\n', ' ')[-400:]))
         if i is not None:
             self.known_hit[i] = self.known_hit.get(i, 0) + 1
             ex = self.known_examples.setdefault(i, [])
